@@ -16,6 +16,8 @@ line protocol of property C12 (harness/c12.py).  Group: `Btc.EC.ops secp256k1`; 
   iss <sec|-> <T> <i>              → ok <script> <control>
   check <q> <script> <control>     → ok True|False
   const                            → the generated constants
+  p2trspk <sec|-> <T|->            → ok <scriptPubKey>        (ScriptPubKey.p2tr(...).script)
+  isp2tr <hex>                     → ok True|False <guard>    (is_p2tr; guard 0/1/2 = length / version / push marker, - = none)
   pathof <T> <i>                   → ok <position bits> <v>:<script>:<path>   (the i-th leaf in tree order, positionally)
   pytree <P>                       → as `tree`, on ANY Python value (tree_helper's own guards)
   outpubpy <sec|-> <P> / outprvpy <d> <P> / isspy <sec|-> <P> <i>   → the entry points on any Python value
@@ -131,6 +133,19 @@ def handle (toks : List String) : String :=
     | some t =>
       let (ls, r) := treeHelper TH t
       s!"ok {toHex r} " ++ "|".intercalate (ls.map fun ((v, s), p) => s!"{v}:{toHex s}:{toHex p}")
+    | none => "bad-op"
+  | ["p2trspk", sec, t] =>
+    match optHex? sec, optTree? t with
+    | some sec, some t =>
+      match scriptPubKeyP2tr ops TH sec t with
+      | .ok spk => s!"ok {toHex spk}"
+      | .error e => rErr e
+    | _, _ => "bad-op"
+  | ["isp2tr", h] =>
+    match fromHex? h with
+    | some spk =>
+      let g := match assertP2tr spk with | some k => toString k | none => "-"
+      s!"ok {if isP2tr spk then "True" else "False"} {g}"
     | none => "bad-op"
   | ["pathof", t, i] =>
     match tree? t, i.toNat? with
